@@ -362,7 +362,7 @@ impl Status {
             duration,
             bitrate: optional_value(f, "bitrate")?,
             crossfade: optional_value(f, "xfade")?.unwrap_or(Duration::ZERO),
-            update_job: optional_value(f, "update_job")?,
+            update_job: optional_value(f, "updating_db")?,
             error: f.get("error"),
             partition: f.get("partition"),
         })
